@@ -91,7 +91,11 @@ func propC25(e *Env) {
 			"errp": func() string { return c25Errp(verCounter) }, "divp": func() string { return c25Divp(verCounter) },
 			"broken": c25Broken, "conflict": c25Conflict, "selfconflict": c25SelfConflict,
 		}[kind]()
-		os.WriteFile(filepath.Join(progs, n), []byte(src), 0o644)
+		pp := filepath.Join(progs, n)
+		if fi, err := os.Lstat(pp); err == nil && fi.Mode()&os.ModeSymlink != 0 {
+			os.Remove(pp)
+		}
+		os.WriteFile(pp, []byte(src), 0o644)
 		ps[n].kind, ps[n].onDisk, ps[n].version = kind, true, verCounter
 	}
 	loadedVersion := map[string]int{}
@@ -106,7 +110,7 @@ func propC25(e *Env) {
 					delete(loadedVersion, n)
 					w.unloads++
 				}
-			case s.kind == "broken" || s.kind == "conflict" || s.kind == "selfconflict":
+			case s.kind == "broken" || s.kind == "conflict" || s.kind == "selfconflict" || s.kind == "dangling":
 				w.loadErrs++
 			default:
 				if s.running == "" || loadedVersion[n] != s.version {
@@ -430,6 +434,17 @@ func propC25(e *Env) {
 				desc = "write " + n + " (valid)"
 				e.Probe("prog_valid")
 			case 1:
+				if e.Choose("gen", 3) == 0 {
+					// the entry becomes a symlink whose target is missing: listed, cannot be opened — a failed load
+					pp := filepath.Join(progs, n)
+					os.Remove(pp)
+					os.Symlink(filepath.Join(progs, "gone", n), pp)
+					verCounter++
+					ps[n].kind, ps[n].onDisk, ps[n].version = "dangling", true, verCounter
+					desc = "replace " + n + " by a dangling symlink"
+					e.Probe("prog_dangling_symlink")
+					break
+				}
 				writeProg(n, "broken")
 				desc = "write " + n + " (broken)"
 				e.Probe("prog_broken")
